@@ -38,6 +38,7 @@ static cl::opt<std::string> OutFile("out", cl::desc("output json"), cl::cat(Cat)
 static cl::list<std::string> Roots("root", cl::desc("source roots to dump"), cl::cat(Cat));
 static cl::opt<bool> MainOnly("main-only", cl::desc("only functions in the main file"), cl::cat(Cat));
 static cl::opt<bool> NoPatterns("no-patterns", cl::desc("skip uninstantiated template patterns"), cl::cat(Cat));
+static cl::list<std::string> FnRoots("fn-root", cl::desc("dump function bodies only for definitions under these dirs (records/vars still follow --root)"), cl::cat(Cat));
 
 namespace {
 
@@ -52,7 +53,7 @@ public:
   ASTContext &Ctx;
   SourceManager &SM;
   PrintingPolicy PP;
-  J::Array Functions, Records, Enums, Vars, TypeTab, DeclTab;
+  J::Array Functions, Records, Enums, Vars, TypeTab, DeclTab, Aliases;
   std::map<const void *, int> TypeIdx;
   std::map<const Decl *, int> DeclIdx;
   std::set<const FunctionDecl *> DoneFns;
@@ -701,6 +702,13 @@ public:
   bool VisitFunctionDecl(FunctionDecl *FD) {
     if (!FD->doesThisDeclarationHaveABody()) return true;
     if (!wanted(FD->getLocation())) return true;
+    if (!FnRoots.empty()) {
+      std::string p = filePath(FD->getLocation());
+      bool ok = false;
+      for (auto &r : FnRoots)
+        if (StringRef(p).startswith(r)) { ok = true; break; }
+      if (!ok) return true;
+    }
     const char *kind = "no";
     if (FD->isDependentContext()) {
       if (NoPatterns) return true;
@@ -795,6 +803,20 @@ public:
     return true;
   }
 
+  bool VisitTypedefNameDecl(TypedefNameDecl *TD) {
+    if (!wanted(TD->getLocation())) return true;
+    if (TD->getDeclContext()->isDependentContext() || TD->getUnderlyingType()->isDependentType()) return true;
+    if (!isa<NamespaceDecl>(TD->getDeclContext()) && !isa<TranslationUnitDecl>(TD->getDeclContext())) return true;
+    J::Object o;
+    o["q"] = qname(TD);
+    o["n"] = TD->getNameAsString();
+    o["t"] = typeIdx(TD->getUnderlyingType());
+    o["file"] = filePath(TD->getLocation());
+    o["l"] = (int64_t)lineOf(TD->getLocation());
+    Aliases.push_back(std::move(o));
+    return true;
+  }
+
   bool VisitVarDecl(VarDecl *VD) {
     if (!VD->hasGlobalStorage()) return true;
     if (isa<ParmVarDecl>(VD)) return true;
@@ -831,6 +853,7 @@ public:
     top["records"] = std::move(Records);
     top["enums"] = std::move(Enums);
     top["vars"] = std::move(Vars);
+    top["aliases"] = std::move(Aliases);
     top["types"] = std::move(TypeTab);
     top["decls"] = std::move(DeclTab);
     top["files"] = std::move(FileTab);
